@@ -9,7 +9,7 @@
    by a re-parse on a hit is tied by the correspondence).  The Cache implementation is the lab's
    recording cache: an association list that never expires (time is outside the model), with
    injected faults by call index: Get error, Set error, partial Set, evictions (partial hits). *)
-From Gv Require Import lib.Bytes lib.Json C02.Model C07.Model C16.Model.
+From Gv Require Import lib.Bytes lib.Json C02.Model C07.Model C16.Model C16.Spec.
 From Coq Require Import ZArith.
 Open Scope N_scope.
 
@@ -190,6 +190,20 @@ Section Pointwise.
   Definition pw_oracle (rq : request) : response :=
     clean_response (fun _ rep => answer (rq_header rq) (rq_footer rq) rep) (fun _ => root_answer (rq_header rq)) rq (is_single rq).
 End Pointwise.
+
+(* ---- what "stored" must imply (the theorem's predicate): the entry was taken from an upstream
+   response that is error free and < 400 and whose Cache-Control values make part (a)'s [ttl]
+   return the entry's lifetime -- hence public, no refusing directive, lifetime within the header's *)
+Definition resp_has_errors (res : response) : bool :=
+  match rs_body res with
+  | BJson resp => match get_loc [PName k_errors] resp with Some (JArr (_ :: _)) => true | _ => false end
+  | _ => false
+  end.
+Definition stored_from (default_ttl : Z) (e : centry) (rq : request) (res : response) : Prop :=
+  In (ce_key e) (keys_of rq) /\
+  rs_err res = false /\ (rs_status res <? 400) = true /\ resp_has_errors res = false /\
+  ttl (rs_cc res) default_ttl = Some (ce_ttl e) /\
+  storable_ok false (rs_cc res) default_ttl (Some (ce_ttl e)).
 
 (* ---- C16(b) specification: boolean checkers evaluated on the implementation's observables
    (upstream requests with their status / error count / Cache-Control values, the recording
